@@ -478,3 +478,64 @@ def text_nested(ctx):
                 try: bad = json.loads(rows[1][0]) != val['v'] or json.loads(rows[1][1]) != val['o'] or ' ' in rows[1][0]
                 except Exception: bad = True
             if bad: c.status = 'reproduced'; c.replay = {'argv': opts + ['--select', '.v=v', '--select', '.o=o'], 'stdin': json.dumps(val, ensure_ascii=False), 'rows': rows, 'rc': r['rc']}; break
+
+
+# ---------------------------------------------------------------- output options belong to the chosen style
+def output_options(ctx):
+    """OutputOptions::get_processor with a free output style and free presence of the json-only and the text-only option groups:
+    Ok exactly when no group is given that does not belong to the style (csv takes neither, text only the text group, json only
+    the json group); the process built is of the style asked for."""
+    run = ctx.run
+    fam = run.family('output.options', 'get_processor answers Err exactly when an option group that does not belong to the chosen output style is given (csv: neither group, text: no json options, json: no text options), and builds the process of that style otherwise')
+    run.bounds['output options'] = 'output style csv / text / json x json options present or not x text options present or not (all 12 combinations)'
+    OO = ctx.structs['OutputOptions']; OS = ctx.enums['OutputStyle']
+    def s_opaque(tag):
+        return lambda ex, st, f, a, t: [(st, named(st, st.fresh_name(tag), t or tag))]
+    def s_text_new(ex, st, func, a, ty):
+        st.events.append(('built', 'TextProcess')); return [(st, named(st, 'TEXTPROCESS', 'TextProcess'))]
+    summ = [(r'TextOutputOptions::csv$', s_opaque('csv')), (r'TextProcess::new$', s_text_new), (r'as Clone>::clone$', s_clone_shared), (r'Option::<.*>::as_ref$', s_identity), (r'Option::<.*>::cloned$', s_identity),
+            (r'Option::<.*>::unwrap_or_default$', s_opaque('options')), (r'^Box::<.*>::new$', lambda ex, st, f, a, t: [(st, a[0])])]
+    gp = [n for n in ctx.fns if re.match(r'^output_style::<impl at [^>]*>::get_processor$', n)]
+    helpers = []
+    if len(gp) == 1:
+        span = gp[0].rsplit('::', 1)[0]
+        helpers = [(r'OutputOptions::%s$' % re.escape(n[len(span) + 2:]), '^' + re.escape(n) + '$') for n in ctx.fns if n.startswith(span + '::') and '{' not in n[len(span):] and not n.endswith('::get_processor')]
+    ex = ctx.exec(summaries=summ, inline=helpers, max_visits=10)
+    F = ex.find(r'^output_style::<impl at [^>]*>::get_processor$')
+    for style in range(len(OS)):
+        for has_json in (0, 1):
+            for has_text in (0, 1):
+                st = State(); so = named(st, 'self', 'OutputOptions')
+                st.heap[so.oid][('f', None, OO.index('output_style'))] = mk_enum(st, 'OutputStyle', style, name='style')
+                st.heap[so.oid][('f', None, OO.index('json_options'))] = some(st, named(st, 'JSONOPTS', 'JsonOutputOptions')) if has_json else none(st)
+                st.heap[so.oid][('f', None, OO.index('text_options'))] = some(st, named(st, 'TEXTOPTS', 'TextOutputOptions')) if has_text else none(st)
+                st.heap[so.oid][('f', None, OO.index('row_seperator'))] = named(st, 'ROWSEP', 'String')
+                ex.new_frame(st, F, [slot(st, so, 'self*'), named(st, 'WRITER', 'Rc<RefCell<dyn Write>>')])
+                nm = OS[style]
+                should_fail = (nm == 'Csv' and (has_json or has_text)) or (nm == 'Text' and has_json) or (nm == 'Json' and has_text)
+                for d in ex.run(st):
+                    run.paths += 1
+                    if d.status == 'infeasible': continue
+                    fam.obligations += 1; fam.paths += 1; fam.witnesses += 1
+                    hav = (d.havoc or [None])[0]; why = None
+                    if d.status != 'returned': why = f'{d.status} {d.notes[-1:]}'
+                    else:
+                        rd = ex.discr(d, obj(d, d.ret)).t
+                        if should_fail and not ex.valid(d, rd == 1)[0]: why = 'is accepted'
+                        elif not should_fail and not ex.valid(d, rd == 0)[0]: why = 'is rejected'
+                        elif not should_fail:
+                            built = [e for e in d.events if e[0] == 'built']
+                            if (nm == 'Json') == bool(built): why = f'builds {"a TextProcess" if built else "no TextProcess"} for style {nm}'
+                    if why is None: fam.discharged += 1
+                    elif not any(c.role == f'{nm}:{has_json}{has_text}' for c in fam.candidates):
+                        fam.candidates.append(Candidate(fam.name, f'{nm}:{has_json}{has_text}', f'output style {nm} with json options {"given" if has_json else "absent"} and text options {"given" if has_text else "absent"} {why}', {'style': nm, 'json': has_json, 'text': has_text}, unmodelled=hav))
+    run.absorb(ex)
+    if fam.discharged: fam.add_sample({'style': 'Csv', 'json_options': 'given', 'text_options': 'given', 'verdict': 'Err'})
+    from .cli import run_driver, show
+    for c in fam.candidates:
+        mv = c.model; argv = ['-o', mv['style'].lower(), '--select', '.a=a'] + (['--style', 'pretty'] if mv['json'] else []) + (['--headers'] if mv['text'] else [])
+        r = run_driver(ctx, argv, b'{"a":1}')
+        should_fail = (mv['style'] == 'Csv' and (mv['json'] or mv['text'])) or (mv['style'] == 'Text' and mv['json']) or (mv['style'] == 'Json' and mv['text'])
+        failed = str(r['result']).startswith('err')
+        c.replay = {'argv': argv, 'stdin': '{"a":1}', 'expected': 'an error before anything is read or written' if should_fail else 'ok', 'result': r['result'], 'pulled': r['pulled'], 'stdout': show(r['stdout'])[:80]}
+        c.status = 'reproduced' if failed != should_fail or (should_fail and (r['pulled'] or r['stdout'])) else 'unit'
